@@ -45,7 +45,7 @@ var (
 // RFC5903 Section 9 states we should only return x.
 func GenerateSharedSecret(privkey *PrivateKey, pubkey *PublicKey) []byte {
 	x, _ := pubkey.Curve.ScalarMult(pubkey.X, pubkey.Y, privkey.D.Bytes())
-	return x.Bytes()
+	return paddedAppend(32, make([]byte, 0, 32), x.Bytes())
 }
 
 // Encrypt encrypts data for the target public key using AES-256-CBC. It also
